@@ -403,6 +403,11 @@ def norm_guards(gs):
             for l in gd.get("all_labels", []):
                 if isinstance(l, int):
                     out.append({"rel": "ne", "a": core, "b": Origin("const", {"v": l, "k": "int"}), "gd": gd})
+        elif labs and all(isinstance(l, int) for l in labs):
+            # several arms share the target (`A | B | C => ..`): the value is none of the other arms' labels
+            for l in gd.get("all_labels", []):
+                if isinstance(l, int) and l not in labs:
+                    out.append({"rel": "ne", "a": core, "b": Origin("const", {"v": l, "k": "int"}), "gd": gd})
     return out
 
 
